@@ -220,7 +220,9 @@ DEFAULTS = [
     {"t": "pair", "v": [1, {"t": "list", "v": [2]}]}, {"t": "list", "v": [{"t": "pair", "v": [{"t": "list", "v": []}, {"t": "dict", "v": []}]}]},
     {"t": "dict", "v": [["p", {"t": "pair", "v": [1, 2]}]]},
 ]
-FORMS = ["attr", "field_default", "factory", "func_default", "param_default", "param_factory", "force_default"]
+# (keeping_factory / param_keeping_factory: a factory that hands out the SAME object every time - a cached loader, `lambda: CONSTANT`;
+#  its product is a default like any other: what arrives is a copy)
+FORMS = ["attr", "field_default", "factory", "func_default", "param_default", "param_factory", "force_default", "keeping_factory", "param_keeping_factory"]
 BASES = ["schema", "dataclass", "deco"]
 
 
@@ -267,12 +269,15 @@ def run_b(case):
         return v
     get = None
     try:
-        if form in ("func_default", "param_default", "param_factory"):
+        if form in ("func_default", "param_default", "param_factory", "param_keeping_factory"):
             if form == "func_default":
                 def f(a: utype.Rule = D):   # noqa: B006 - the point of the exercise
                     return a
             elif form == "param_default":
                 def f(a=utype.Param(default=D)):
+                    return a
+            elif form == "param_keeping_factory":
+                def f(a=utype.Param(default_factory=lambda: D)):
                     return a
             else:
                 def f(a=utype.Param(default_factory=factory)):
@@ -292,6 +297,8 @@ def run_b(case):
                 ns["a"] = utype.Field(default=D)
             elif form == "factory":
                 ns["a"] = utype.Field(default_factory=factory)
+            elif form == "keeping_factory":
+                ns["a"] = utype.Field(default_factory=lambda: D)
             else:
                 ns["a"] = utype.Field(required=False)
                 opts = utype.Options(force_default=D)
@@ -534,6 +541,73 @@ def c_cases(thorough):
 
 # -- dispatch ----------------------------------------------------------------------------------------------
 
+# -- (e) one function, declared twice ---------------------------------------------------------------------
+
+E_SRC = """
+import utype
+from typing import *
+
+class Pos(int, utype.Rule):
+    gt = 0
+
+def f(a: Pos, b: List[int] = None):
+    return [a, b]
+"""
+E_OPTIONS = [None, {"no_explicit_cast": True}, {"ignore_constraints": True}, {"collect_errors": True}, {"invalid_items": "exclude"}, {"no_data_loss": True}]
+E_CALLS = [[3], ["3"], [-1], [{"t": "float", "v": "2.5"}], [1, {"t": "list", "v": [1, "x"]}], [1, {"t": "list", "v": ["2"]}], ["x", {"t": "list", "v": ["y"]}]]
+_e_n = [0]
+
+
+def run_e(case):
+    """utype.parse(f, options=A) then utype.parse(f, options=B) on ONE module-level function: each wrapper behaves as if it were the
+    only declaration of that function (reference: the same source in a module of its own, declared once with those options)"""
+    import sys
+    import types
+    import utype
+    from .. import entries
+    from utype.parser import base as pbase
+    first, second = case["first"], case["second"]
+    mods = []
+
+    def module():
+        _e_n[0] += 1
+        name = f"vf_c19_e{_e_n[0]}"
+        m = types.ModuleType(name)
+        sys.modules[name] = m
+        exec(compile(E_SRC, name, "exec"), m.__dict__)
+        mods.append(m)
+        return m
+
+    def wrap(m, o):
+        opts = entries.make_options(o)
+        return utype.parse(m.f, options=opts) if opts is not None else utype.parse(m.f)
+
+    def sig_of(out):
+        if out[0] == "ok":
+            return ("ok", json.dumps(codec.encode(oracle.plain(out[1])), sort_keys=True, default=repr))
+        return (out[0], sorted({type(e).__name__ for e in (getattr(out[1], "errors", None) or [out[1]])}) if len(out) > 1 and isinstance(out[1], BaseException) else None)
+    try:
+        m = module()
+        g1 = wrap(m, first)
+        g2 = wrap(m, second)
+        ref1, ref2 = wrap(module(), first), wrap(module(), second)
+        fails = []
+        for call in E_CALLS:
+            args = [codec.decode(a) for a in call]
+            for tag, g, ref, o in (("second", g2, ref2, second), ("first", g1, ref1, first)):
+                got, want = sig_of(oracle.outcome(g, *args)), sig_of(oracle.outcome(ref, *[codec.decode(a) for a in call]))
+                if got != want:
+                    fails.append((f"{tag}-declaration-of-one-function-behaves-differently-from-the-only-declaration/{'+'.join(sorted(o or {})) or 'no-options'}",
+                                  {"first": first, "second": second, "call": call, "got": got, "alone": want}))
+                    break
+        return {"status": "ok", "fails": fails[:2], "nt": first != second}
+    finally:
+        for m in mods:
+            for k in [k for k in pbase.__parsers__ if getattr(k, "__module__", None) == m.__name__]:
+                pbase.__parsers__.pop(k, None)
+            sys.modules.pop(m.__name__, None)
+
+
 def run_case(case):
     try:
         part = case["part"]
@@ -549,6 +623,8 @@ def run_case(case):
             return run_b(case)
         if part == "d":
             return run_d(case)
+        if part == "e":
+            return run_e(case)
         if part == "c":
             return run_c(case)
     except (KeyError, IndexError) as e:
@@ -583,7 +659,7 @@ def campaign(ctx):
     if ctx.shard == 0:
         n = 0
         for form in FORMS:
-            for base in (BASES if not form.startswith(("func", "param")) else ["schema"]):
+            for base in (BASES if not form.startswith(("func", "param")) else ["schema"]):  # (keeping_factory: all bases)
                 for dv in DEFAULTS:
                     ctx.ev()
                     n += 1
@@ -607,6 +683,11 @@ def campaign(ctx):
     # (d) order independence across fresh interpreters (state kept in the library itself is invisible to a re-declaration)
     if ctx.shard == 1 % ctx.nshards:
         ctx.ev()
+        for first in E_OPTIONS:
+            for second in E_OPTIONS:
+                ctx.ev()
+                body({"part": "e", "first": first, "second": second})
+        ctx.extra["e_cases"] = len(E_OPTIONS) ** 2
         body({"part": "d", "orders": ["forward", "reverse", "stride7"] + (["stride11", "stride5"] if ctx.thorough else [])})
         ctx.extra["d_order_runs"] = 3 if not ctx.thorough else 5
     ctx.run_given(st.one_of(a_cases(ctx.thorough), a_cases(ctx.thorough), c_cases(ctx.thorough)), body, max_examples=ctx.n(1000, 12000))
